@@ -31,8 +31,9 @@ func TestC04(t *testing.T) {
 	for i := 0; i < n; i++ {
 		cfg := storeh.Config{
 			Batch: []int{1, 2, 3, 5, 64}[rng.Intn(5)], Cache: []int{4, 5, 8, 512}[rng.Intn(4)], ICache: []int{4, 6, 2048}[rng.Intn(3)],
-			U: 24, NH: rng.Intn(3), ProbeEvery: true, Ranges: 3, CtxDS: rng.Bool(),
+			U: 24, NH: rng.Intn(3), ProbeEvery: true, Ranges: 3, CtxDS: rng.Bool(), DuringPct: 15,
 		}
+		cfg.Par = cfg.NH == 0 && rng.Bool()
 		maxOps := 5 + rng.Intn(36)
 		gen := storeh.RandomGen(rng, cfg, storeh.Weights{Append: 70, Delete: 18, Restart: 12, InvalidDelete: 25, FailPct: 25})
 		res := storeh.Run(t, rng, cfg, maxOps, gen)
@@ -40,6 +41,7 @@ func TestC04(t *testing.T) {
 		w.Add(res.Term, res.Descr, class, res.NonTriv)
 		w.Count("batch", fmt.Sprint(cfg.Batch))
 		w.Count("datastore_flavour_ctxds", fmt.Sprint(cfg.CtxDS))
+		w.Count("parallel_delete_path", fmt.Sprint(cfg.Par))
 		w.Count("ops", fmt.Sprint(res.Ops/10*10))
 		w.Count("deletes_ok", fmt.Sprint(res.DelOK))
 		w.Count("gapped_appends", fmt.Sprint(res.Gapped))
